@@ -326,6 +326,66 @@ func short(ids []string) []string {
 	return o
 }
 
+// runStateForbidsJoin: a /send_join response whose state forbids the join (the joiner is banned / the room is
+// invite-only) although the join event's own auth events - all of them part of that state - allow it: the join has to pass
+// BOTH checks, so the response must be refused; the control (nothing forbids) must be accepted.
+func runStateForbidsJoin(r *harness.Run, version, mode string) error {
+	r.Eval()
+	ver := gmsl.MustGetRoomVersion(gmsl.RoomVersion(version))
+	h, st := srgen.New(version, 0, 0)
+	tip := []string{h.Order[len(h.Order)-1].ID}
+	// the join cites the room as it was before the offending change
+	join := srgen.Action{Name: "dave-joins", Type: "m.room.member", SK: srgen.Dave, Sender: srgen.Dave, Content: `{"membership":"join"}`}
+	je := h.Add(join, st, tip)
+	state := st
+	switch mode {
+	case "banned":
+		state, _, _ = h.Branch(st, tip, []srgen.Action{{Name: "alice-bans-dave", Type: "m.room.member", SK: srgen.Dave, Sender: srgen.Alice, Content: `{"membership":"ban"}`}})
+	case "invite-only":
+		state, _, _ = h.Branch(st, tip, []srgen.Action{{Name: "jr-invite", Type: "m.room.join_rules", SK: "", Sender: srgen.Alice, Content: `{"join_rule":"invite"}`}})
+	}
+	real, _, err := fedgen.Materialise(h, nil)
+	if err != nil {
+		return fmt.Errorf("harness: %v", err)
+	}
+	resp := &stateResp{}
+	var ids []string
+	for _, e := range state {
+		ids = append(ids, real[e.ID].ID)
+	}
+	sort.Strings(ids)
+	byID := map[string]*fedgen.Real{}
+	for _, rr := range real {
+		byID[rr.ID] = rr
+	}
+	for _, id := range ids {
+		resp.state = append(resp.state, byID[id].JSON)
+	}
+	// the auth chain: every event of the history except the join itself (superseded events included)
+	for _, e := range h.Order {
+		if e.ID != je.ID {
+			resp.auth = append(resp.auth, real[e.ID].JSON)
+		}
+	}
+	jp, err := ver.NewEventFromTrustedJSON(real[je.ID].JSON, false)
+	if err != nil {
+		return fmt.Errorf("harness: %v", err)
+	}
+	provider := func(gmsl.RoomVersion, []string) ([]gmsl.PDU, error) { return nil, nil }
+	var serr error
+	if p, msg := harness.Try(func() {
+		_, serr = gmsl.CheckSendJoinResponse(context.Background(), gmsl.RoomVersion(version), resp, fedgen.Verifier{}, jp, provider, fedgen.UID)
+	}); p {
+		return fmt.Errorf("CheckSendJoinResponse panics: %s", msg)
+	}
+	want := mode == "control"
+	if (serr == nil) != want {
+		return fmt.Errorf("send_join response whose state is %q for the joiner (the auth events the join cites, all part of the state, allow it): accepted=%v (%v), expected accepted=%v", mode, serr == nil, serr, want)
+	}
+	r.Nontrivial("state-forbids|" + version + "|" + mode)
+	return nil
+}
+
 type stateResp struct{ auth, state gmsl.EventJSONs }
 
 func (s *stateResp) GetAuthEvents() gmsl.EventJSONs  { return s.auth }
@@ -714,12 +774,19 @@ func (b *backfiller) ProvideEvents(v gmsl.RoomVersion, ids []string) ([]gmsl.PDU
 func main() { harness.Main("C14", "fault_enumeration", run) }
 
 func run(r *harness.Run) {
-	r.Rule("federation responses built from a generated room (create, creator join, power levels, join rules, two joins, a topic) with hash-derived event IDs and reference signatures, room versions 1 and 10: every single and every pair of per-event faults {bad signature, not allowed by its own auth events, auth event missing from the response, wrong room, no state key, duplicate state key, malformed JSON, listed in both lists} x event-provider behaviour {returns event, returns nothing, errors} through CheckStateResponse and CheckSendJoinResponse; VerifyEventAuthChain (with a provider returning exactly the requested events, and one returning their whole auth chains) / VerifyAuthRulesAtState with a missing or disallowed event at every depth x state contents x allowValidation; LoadAndVerify / RequestBackfill on every batch of <= 3 inputs over events x {intact, bad signature, disallowed, malformed, listed twice}. Oracle recomputed per event from already-checked parts (VerifyEventSignatures, Allowed on an independently assembled auth set).")
+	r.Rule("federation responses built from a generated room (create, creator join, power levels, join rules, two joins, a topic) with hash-derived event IDs and reference signatures, room versions 1 and 10: every single and every pair of per-event faults {bad signature, not allowed by its own auth events, auth event missing from the response, wrong room, no state key, duplicate state key, malformed JSON, listed in both lists} x event-provider behaviour {returns event, returns nothing, errors} through CheckStateResponse and CheckSendJoinResponse; send_join responses whose state forbids the join although the auth events the join cites (all part of that state) allow it; VerifyEventAuthChain (with a provider returning exactly the requested events, and one returning their whole auth chains) / VerifyAuthRulesAtState with a missing or disallowed event at every depth x state contents x allowValidation; LoadAndVerify / RequestBackfill on every batch of <= 3 inputs over events x {intact, bad signature, disallowed, malformed, listed twice}. Oracle recomputed per event from already-checked parts (VerifyEventSignatures, Allowed on an independently assembled auth set).")
 	r.Assume("VerifyEventSignatures and Allowed are used as sub-oracles (their own properties are C06 / C07)", "RequestBackfill keeping events whose only failure is the signature check is documented library behaviour")
 	r.OnReplay("resp", func(raw json.RawMessage) error {
 		var c respCase
 		_ = json.Unmarshal(raw, &c)
 		return run1(r, c)
+	})
+	r.OnReplay("sendjoin-state", func(raw json.RawMessage) error {
+		var a []string
+		if err := json.Unmarshal(raw, &a); err != nil || len(a) != 2 {
+			return fmt.Errorf("bad replay input")
+		}
+		return runStateForbidsJoin(r, a[0], a[1])
 	})
 	r.OnReplay("chain", func(raw json.RawMessage) error {
 		var c chainCase
@@ -793,6 +860,13 @@ func run(r *harness.Run) {
 		}
 	})
 	r.Count("chain_cases", int64(len(chains)))
+	for _, v := range []string{"1", "6", "10", "12"} {
+		for _, mode := range []string{"control", "banned", "invite-only"} {
+			if err := runStateForbidsJoin(r, v, mode); err != nil {
+				r.Violation(fmt.Sprintf("sendjoin-state:%s:%s", v, mode), err.Error(), "sendjoin-state", []string{v, mode})
+			}
+		}
+	}
 	var loads []loadCase
 	var inputs []string
 	for _, n := range []string{"topic", "carol", "bob", "pl"} {
